@@ -86,12 +86,10 @@ structure PrimsHoare (Inv : EState → Prop) (R : EState → EState → Prop) : 
   lookupFnM : ∀ n, Hoare Inv R (lookupFnM n)
   echoLine : ∀ l, Hoare Inv R (echoLine l)
   allocateTrackedQubit : ∀ n, Hoare Inv R (allocateTrackedQubit n)
-  ensureQubitExists : ∀ i p, Hoare Inv R (ensureQubitExists i p)
   ensureQubitActive : ∀ i p, Hoare Inv R (ensureQubitActive i p)
-  simReset : ∀ q, Hoare Inv R (simReset q)
+  resetQubit : ∀ q p, Hoare Inv R (resetQubit q p)
   simGate : ∀ op, Hoare Inv R (simGate op)
   simCx : ∀ c t, Hoare Inv R (simCx c t)
-  unmarkMeasured : ∀ i, Hoare Inv R (unmarkMeasured i)
   measureQubit : ∀ q p, Hoare Inv R (measureQubit q p)
 
 section
@@ -150,12 +148,10 @@ theorem Closed.ofHoare (h : PrimsHoare Inv R) : Closed (fun {α} (m : EM α) => 
   lookupFnM := h.lookupFnM
   echoLine := h.echoLine
   allocateTrackedQubit := h.allocateTrackedQubit
-  ensureQubitExists := h.ensureQubitExists
   ensureQubitActive := h.ensureQubitActive
-  simReset := h.simReset
+  resetQubit := h.resetQubit
   simGate := h.simGate
   simCx := h.simCx
-  unmarkMeasured := h.unmarkMeasured
   measureQubit := h.measureQubit
 
 /-- **Every program preserves what the primitives preserve.** -/
